@@ -39,6 +39,7 @@ def handle (args : List String) : String :=
     match Hex.dec f, Hex.dec t, decHexList el, decHexList ks with
     | some file, some tmpl, some elems, some keys => evalFuncs true file tmpl elems keys
     | _, _, _, _ => "bad-args"
+  | ["livef", _, _] => "unmodelled time"
   | ["live", t] =>
     match Hex.dec t with
     | some tb =>
